@@ -188,6 +188,21 @@ def run(check):
         sc = gen.make_scripts([a], {})
         text_cases.append(({"id": "c20-t%03d-engine" % k, "mode": "engine", "files": prog.files(), "scripts": sc, "runs": [], "extra": {"engine": {"cache": "context", "input_yaml": text}}},
                            {"id": "c20-t%03d-direct" % k, "files": prog.files(), "scripts": sc, "runs": [{"input": strs}]}, text))
+    # trees with a loop that is switched off by a constant (its sub-workflow file is named by no other loop), at the top level
+    # and one or two levels down: from disk and prepared directly they give the same result
+    from ..model import OrDisabled
+    for k, (v, depth) in enumerate([(False, 0), ("no", 0), (0, 1), ("false", 1), (False, 2)]):
+        leaf = gen.sub_program("off.yaml", 1)
+        off = Step("off", "foreach", sub=leaf, items=[{"tag": "i0"}])
+        off.fields["enabled"] = v
+        a = gen.plugin_step("a", Expr(In("tag")), src="lvl%d_a" % depth)
+        prog = Program([a, off], {"success": {"a": gen.tagref("a"), "l": OrDisabled(Ref("off", "outputs", "success"))}}, gen.SUB_INPUT if depth else gen.BASE_INPUT, name="lvl%d.yaml" % depth if depth else "workflow.yaml")
+        for d in range(depth, 0, -1):
+            wrap = Step("w%d" % d, "foreach", sub=prog, items=[{"tag": Expr(In("tag"))}])
+            prog = Program([wrap], {"success": {"d": Expr(Ref("w%d" % d, "outputs", "success", "data"))}}, gen.SUB_INPUT if d > 1 else gen.BASE_INPUT, name="wrap%d.yaml" % d if d > 1 else "workflow.yaml")
+        sc = gen.make_scripts(prog.steps, {})
+        text_cases.append(({"id": "c20-o%03d-engine" % k, "mode": "engine", "files": prog.files(), "scripts": sc, "runs": [], "extra": {"engine": {"cache": "context", "input_yaml": "{tag: T}"}}},
+                           {"id": "c20-o%03d-direct" % k, "files": prog.files(), "scripts": sc, "runs": [{"input": {"tag": "T"}}]}, "loop switched off by the constant %r at depth %d" % (v, depth)))
     stats = {"trees": n, "engine_runs": 0, "direct_runs": 0, "error_flag_true": 0, "error_flag_false": 0, "cli_runs": 0, "rejected": 0}
     with harness.Runner(instrument=False) as rn:
         out = rn.run_cases(items, per_case_timeout=60)
@@ -200,7 +215,7 @@ def run(check):
             continue
         re_, rd = (oe["result"].get("runs") or [{}])[0], (od["result"].get("runs") or [{}])[0]
         if oe["result"].get("prepare_err") or od["result"].get("prepare_err") or (re_.get("out_id"), ref.denum(re_.get("data")), bool(re_.get("err"))) != (rd.get("out_id"), ref.denum(rd.get("data")), bool(rd.get("err"))):
-            check.report("api@input-file-differs-from-direct", "input file %r: the engine API returned (%r, %r, %s) but executing the prepared workflow on the same scalars returns (%r, %r, %s)" % (
+            check.report("api@input-file-differs-from-direct" if text.startswith(("s:", "{s:")) else "api@engine-differs-from-direct:directed", "%r: the engine API returned (%r, %r, %s) but executing the prepared workflow on the same scalars returns (%r, %r, %s)" % (
                 text, re_.get("out_id"), re_.get("data"), (re_.get("err") or oe["result"].get("prepare_err") or "")[:100], rd.get("out_id"), rd.get("data"), (rd.get("err") or "")[:100]), {"case": ce})
         elif re_.get("out_id") != "success":
             check.fail_broken("input text case did not run: %r" % (re_,))
